@@ -193,7 +193,7 @@ theorem wt_cacheTail (Γ : Ctx) (sg : Option (Name × Cid)) (t1 t2 t3 t4 : Name)
     exact wt_pkgData _ t4 k2 k3 n _ (by simp [ctxStep, Ctx.upd, h42, h43, d4]) m4
       (fun Γ'' => wt_pkgUse Γ'' k1)
   unfold cacheTail
-  refine wt_advertise _ t1 k1 _ c1 ⟨trivial, ?_⟩
+  refine ⟨trivial, wt_advertise _ t1 k1 _ c1 ⟨trivial, ?_⟩⟩
   cases sg with
   | none =>
     simp only [advSig]
@@ -232,7 +232,7 @@ theorem wt_pkgExpand (sg : Option (Name × Cid)) (t1 t2 t3 t4 : Name) (k1 k2 k3 
     refine wt_chunks _ n t2 k2 _ (by simp [ctxStep, Ctx.upd, h12, h13, h23, h21, h31, h32, h41, h42, h43]) ?_
     refine wt_chunks _ n t3 k3 _ (by simp [ctxStep, Ctx.upd, h12, h13, h23, h21, h31, h32, h41, h42, h43]) ?_
     refine ⟨⟨k3, by simp [ctxStep, Ctx.upd, h12, h13, h23, h21, h31, h32, h41, h42, h43]⟩,
-      ⟨k2, by simp [ctxStep, Ctx.upd, h12, h13, h23, h21, h31, h32, h41, h42, h43]⟩, trivial, trivial, trivial, trivial, ?_⟩
+      ⟨k2, by simp [ctxStep, Ctx.upd, h12, h13, h23, h21, h31, h32, h41, h42, h43]⟩, trivial, trivial, trivial, ?_⟩
     refine htail _ ?_ ?_ ?_ ?_ trivial
     · simp [ctxStep, Ctx.upd, h12, h13, h23, h21, h31, h32, h41, h42, h43]
     · simp [ctxStep, Ctx.upd, h12, h13, h23, h21, h31, h32, h41, h42, h43]
@@ -256,7 +256,7 @@ theorem wt_pkgExpand (sg : Option (Name × Cid)) (t1 t2 t3 t4 : Name) (k1 k2 k3 
     refine wt_chunks _ n t2 k2 _ (by simp [ctxStep, Ctx.upd, h12, h13, h23, h21, h31, h32, h41, h42, h43, h01, h02, h03, h04, h10, h20, h30, h40]) ?_
     refine wt_chunks _ n t3 k3 _ (by simp [ctxStep, Ctx.upd, h12, h13, h23, h21, h31, h32, h41, h42, h43, h01, h02, h03, h04, h10, h20, h30, h40]) ?_
     refine ⟨⟨k3, by simp [ctxStep, Ctx.upd, h12, h13, h23, h21, h31, h32, h41, h42, h43, h01, h02, h03, h04, h10, h20, h30, h40]⟩,
-      ⟨k2, by simp [ctxStep, Ctx.upd, h12, h13, h23, h21, h31, h32, h41, h42, h43, h01, h02, h03, h04, h10, h20, h30, h40]⟩, trivial, trivial, trivial, trivial, ?_⟩
+      ⟨k2, by simp [ctxStep, Ctx.upd, h12, h13, h23, h21, h31, h32, h41, h42, h43, h01, h02, h03, h04, h10, h20, h30, h40]⟩, trivial, trivial, trivial, ?_⟩
     refine htail _ ?_ ?_ ?_ ?_ ?_
     · simp [ctxStep, Ctx.upd, h12, h13, h23, h21, h31, h32, h41, h42, h43, h01, h02, h03, h04, h10, h20, h30, h40]
     · simp [ctxStep, Ctx.upd, h12, h13, h23, h21, h31, h32, h41, h42, h43, h01, h02, h03, h04, h10, h20, h30, h40]
@@ -283,6 +283,45 @@ theorem wt_pkgOffline (sg : Option (Name × Cid)) (t4 : Name) (k1 k2 k3 : Cid) (
     wt (fun _ => .unborn) (pkgOffline sg t4 k1 k2 k3 n) :=
   ⟨⟨trivial, ⟨trivial, wt_sigProbe _ sg _ (wt_pkgData _ t4 k2 k3 n _ rfl h4 (fun Γ' => wt_pkgUse Γ' k1))⟩,
     trivial⟩, trivial⟩
+
+theorem wt_cleanupTail (Γ : Ctx) (sg : Option (Name × Cid)) (t1 t2 t3 : Name) (k1 k2 k3 : Cid)
+    (c1 : Γ t1 = .closed k1) (c2 : Γ t2 = .closed k2) (c3 : Γ t3 = .closed k3)
+    (c0 : SgAll sg (fun t0 k0 => Γ t0 = .closed k0))
+    (h12 : t1 ≠ t2) (h13 : t1 ≠ t3) (h23 : t2 ≠ t3)
+    (hs : SgAll sg (fun t0 _ => t0 ≠ t1 ∧ t0 ≠ t2 ∧ t0 ≠ t3)) :
+    wt Γ (cleanupTail sg t1 t2 t3) := by
+  have h21 := h12.symm
+  have h31 := h13.symm
+  have h32 := h23.symm
+  cases sg with
+  | none =>
+    simp only [cleanupTail]
+    exact ⟨⟨k1, c1⟩, ⟨k2, by simp [ctxStep, Ctx.upd, h21, c2]⟩,
+      ⟨k3, by simp [ctxStep, Ctx.upd, h31, h32, c3]⟩, trivial⟩
+  | some p =>
+    obtain ⟨t0, k0⟩ := p
+    obtain ⟨h01, h02, h03⟩ := hs
+    simp only [cleanupTail]
+    exact ⟨⟨k0, c0⟩, ⟨k1, by simp [ctxStep, Ctx.upd, h01.symm, c1]⟩,
+      ⟨k2, by simp [ctxStep, Ctx.upd, h21, h02.symm, c2]⟩,
+      ⟨k3, by simp [ctxStep, Ctx.upd, h31, h32, h03.symm, c3]⟩, trivial⟩
+
+/-- the builder that fetches an apk other than the listed one (and rejects it) is well-typed: it removes
+only its own, unadvertised temps -/
+theorem wt_pkgBuilderRejected (sgL : Option (Name × Cid)) (t4 : Name) (k1 k2 k3 : Cid)
+    (sgS : Option (Name × Cid)) (t1 t2 t3 : Name) (s1 s2 s3 : Cid) (n : Nat) (ht : Temps sgS t1 t2 t3 t4) :
+    wt (fun _ => .unborn) (pkgBuilderRejected sgL t4 k1 k2 k3 sgS t1 t2 t3 s1 s2 s3 n) := by
+  have hrej : wt (fun _ => .unborn) (pkgRejected sgS t1 t2 t3 s1 s2 s3 n) := by
+    unfold pkgRejected
+    refine wt_pkgExpand sgS t1 t2 t3 t4 s1 s2 s3 n _ ht ?_
+    intro Γ c1 c2 c3 _ c0
+    refine wt_cleanupTail Γ sgS t1 t2 t3 s1 s2 s3 c1 c2 c3 c0 ht.h12 ht.h13 ht.h23 ?_
+    have := ht.hs
+    cases sgS with
+    | none => trivial
+    | some p => exact ⟨this.2.1, this.2.2.1, this.2.2.2.1⟩
+  exact ⟨⟨trivial, ⟨trivial, wt_sigProbe _ sgL _ (wt_pkgData _ t4 k2 k3 n _ rfl ht.m4 (fun Γ' => wt_pkgUse Γ' k1))⟩,
+    hrej⟩, hrej⟩
 
 /-! ### F19a: the regeneration write under the final name (the tree before the fix) breaks the invariant -/
 
@@ -369,6 +408,37 @@ theorem resolves_stable (sched : List Nat) (s : State) (h : Inv s.fs.get s.procs
     simp only [runSched]
     exact ih (s.step i) (inv_step s i h) (adv_present_persist s i h k hk)
 
+/-- T `adv_present_resolves`: in every reachable state every advertised entry that EXISTS resolves — no
+dangling link, no link to anything but the complete content it names (what `adv_invariant` says about
+entries that resolve, for entries that are merely present: `AdvertiseCachedFile` never repairs an
+existing entry, so a dangling one would make every later build fail). -/
+theorem adv_present_resolves (fs0 : FS) (P : Nat → Proc) (sched : List Nat)
+    (hg : GoodFS fs0.get) (hP : FreshPool P) (k : Cid)
+    (hk : (runSched sched ⟨fs0, P⟩).fs.get (.adv k) ≠ none) :
+    (runSched sched ⟨fs0, P⟩).fs.resolve (.adv k) = some (k, true) := by
+  have h := inv_runSched sched ⟨fs0, P⟩ (inv_init fs0 P hg hP)
+  rw [resolve_eq]
+  exact present_resolves h.good hk
+
+/-- a repository that serves apk (control 5, data 6, tar 7) where the index lists (control 1, …): the
+builder of the tree expands, rejects, cleans up — nothing is advertised, nothing is left -/
+theorem rejected_leaves_nothing :
+    let r := exec FS.empty (fun _ => .unborn) []
+      (pkgBuilderRejected none (.tmp 10) 1 2 3 none (.tmp 1) (.tmp 2) (.tmp 3) 5 6 7 1)
+    r.2.2.2 = false ∧ r.1.get (.adv 5) = none ∧ r.1.get (.adv 6) = none ∧ r.1.get (.adv 7) = none ∧
+    r.1.get (.tmp 1) = none ∧ r.1.get (.tmp 2) = none ∧ r.1.get (.tmp 3) = none := by decide
+
+/-- T: with `cachePackage` called BEFORE `verifyExpanded` (and `exp.Close()` on rejection) the rejected
+sections stay advertised under their own hashes as dangling links — the statement of
+`adv_present_resolves` is false — and once the index lists exactly that apk (control 5, data 6, tar 7)
+the builder of the tree fails on it, for ever: `Stat` does not see the entry (miss), `Symlink` finds it
+(EEXIST, ignored), the open fails. -/
+theorem cache_before_verify_dangles :
+    let r := exec FS.empty (fun _ => .unborn) [] (pkgRejectedLate none (.tmp 1) (.tmp 2) (.tmp 3) 5 6 7 1)
+    r.1.get (.adv 5) = some (.link (.tmp 1)) ∧ r.1.get (.tmp 1) = none ∧ r.1.resolve (.adv 5) = none ∧
+    (exec r.1 (fun _ => .unborn) []
+      (pkgBuilder none (.tmp 11) (.tmp 12) (.tmp 13) (.tmp 14) 5 6 7 1)).2.2.2 = false := by decide
+
 /-! ### the signature section of a signed package
 
 `cachePackage` advertises control, signature, data, tar — in this order; `cachedPackage` reports a hit when
@@ -401,10 +471,10 @@ theorem safe_pkgExpand (Dep : Cid → Cid → Prop) (pres : Cid → Prop) (sg : 
     safe Dep pres (pkgExpand sg t1 t2 t3 k1 k2 k3 n tail) := by
   have hrest : safe Dep pres (.op (.create t2 k2) <| .op (.mark 2) <| .op (.create t3 k3) <| .op (.mark 3) <|
       chunks n t2 <| chunks n t3 <| .op (.finish t3) <| .op (.finish t2) <| .op (.mark 4) <|
-      .op (.read t1 true) <| .op (.read t3 false) <| .op (.mark 5) tail) := by
+      .op (.read t1 true) <| .op (.read t3 false) tail) := by
     refine ⟨trivial, trivial, trivial, trivial, ?_⟩
     refine safe_chunks Dep _ n t2 _ (safe_chunks Dep _ n t3 _ ?_)
-    exact ⟨trivial, trivial, trivial, trivial, trivial, trivial, ht⟩
+    exact ⟨trivial, trivial, trivial, trivial, trivial, ht⟩
   unfold pkgExpand
   refine ⟨trivial, trivial, trivial, ?_⟩
   cases sg with
@@ -433,7 +503,7 @@ theorem safe_cacheTail (Dep : Cid → Cid → Prop) (pres : Cid → Prop) (sg : 
     (t1 t2 t3 t4 : Name) (k1 k2 k3 : Cid) (n : Nat) (hp : PkgDeps Dep sg k1 k2 k3) :
     safe Dep pres (cacheTail (pkgData t4 k2 k3 n) sg t1 t2 t3 k1 k2 k3) := by
   unfold cacheTail
-  refine safe_advertise Dep _ t1 k1 _ (fun d hd => absurd hd (hp.h1 d)) ⟨trivial, ?_⟩
+  refine ⟨trivial, safe_advertise Dep _ t1 k1 _ (fun d hd => absurd hd (hp.h1 d)) ⟨trivial, ?_⟩⟩
   have hrest : ∀ pres' : Cid → Prop, (∀ d, Dep k2 d → pres' d) →
       safe Dep pres' (advertise t2 k2 <| .op (.mark 7) <| advertise t3 k3 <| .op (.mark 8) <|
         pkgData t4 k2 k3 n (pkgUse k1)) := by
@@ -495,6 +565,23 @@ theorem safe_pkgOffline (Dep : Cid → Cid → Prop) (pres : Cid → Prop) (sg :
   cases sg with
   | none => trivial
   | some p => exact Or.inr (Or.inr this)
+
+theorem safe_pkgBuilderRejected (Dep : Cid → Cid → Prop) (pres : Cid → Prop) (sgL : Option (Name × Cid))
+    (t4 : Name) (k1 k2 k3 : Cid) (sgS : Option (Name × Cid)) (t1 t2 t3 : Name) (s1 s2 s3 : Cid) (n : Nat)
+    (h3 : ∀ d, ¬ Dep k3 d) (hd : SgAll sgL (fun _ k0 => Dep k2 k0)) :
+    safe Dep pres (pkgBuilderRejected sgL t4 k1 k2 k3 sgS t1 t2 t3 s1 s2 s3 n) := by
+  have hrej : ∀ pres', safe Dep pres' (pkgRejected sgS t1 t2 t3 s1 s2 s3 n) := by
+    intro pres'
+    refine safe_pkgExpand Dep pres' sgS t1 t2 t3 s1 s2 s3 n _ ?_
+    cases sgS with
+    | none => exact ⟨trivial, trivial, trivial, trivial⟩
+    | some p => exact ⟨trivial, trivial, trivial, trivial, trivial⟩
+  unfold pkgBuilderRejected
+  refine ⟨⟨trivial, ⟨trivial, ?_⟩, Or.inr (hrej _)⟩, Or.inr (hrej _)⟩
+  refine safe_sigProbe Dep _ sgL _ ?_ (fun pres' _ => safe_pkgData Dep pres' t4 k1 k2 k3 n h3)
+  cases sgL with
+  | none => trivial
+  | some p => exact Or.inr (Or.inr hd)
 
 theorem safe_index (Dep : Cid → Cid → Prop) (pres : Cid → Prop) (t : Name) (hk gk : Cid) (n : Nat)
     (hg : ∀ d, ¬ Dep gk d) : safe Dep pres (indexOnline t hk gk n) := by
@@ -999,8 +1086,11 @@ theorem tie_expand_streams : Generated.cache_expandStreamIndex =
     ["3:signatureIndex=0,controlDataIndex=1,packageIndex=2",
      "2:signatureIndex=-1,controlDataIndex=0,packageIndex=1", "default:"] := rfl
 
+/-- `expandPackage`: the fetched apk is verified BEFORE `cachePackage` advertises anything; a rejected one
+is closed (temp directory removed) without ever having been advertised — `pkgMissWith` / `pkgRejected` -/
 theorem tie_expandPackage : Generated.cache_expandPackageCalls =
-    ["a.cachedPackage", "os.MkdirAll", "a.FetchPackage", "expandapk.ExpandApk", "a.cachePackage"] := rfl
+    ["a.cachedPackage", "os.MkdirAll", "a.FetchPackage", "expandapk.ExpandApk", "a.verifyExpanded",
+     "exp.Close", "a.cachePackage"] := rfl
 
 theorem tie_packageData : Generated.cache_packageDataCalls =
     ["os.Open", "os.Open", "Point:regen.begin", "os.CreateTemp", "Point:regen.created", "io.CopyBuffer",
